@@ -16,7 +16,7 @@ import (
 	"strings"
 	"time"
 
-	"golang.org/x/tools/go/ssa"
+	ssa "xvc/xssa"
 
 	"xvc/load"
 	"xvc/q"
